@@ -487,3 +487,21 @@ V("c15-save-text-drops-styles", "C15", "rich/console.py", "        text = self.e
 V("c15-strip-styles-drops-flag", "C15", "rich/segment.py", "            yield cls(text, None, is_control)\n\n    @classmethod\n    def remove_color", "            yield cls(text, None)\n\n    @classmethod\n    def remove_color", "R15.11")
 V("c16-islice-truthy-guard", "C16", "rich/pretty.py", "                    iter_values = iter(obj)\n                    if max_length is not None:\n", "                    iter_values = iter(obj)\n                    if max_length:\n", "R16.3")
 V("c16-benign-islice-unguarded", "C16", "rich/pretty.py", "                    iter_values = iter(obj)\n                    if max_length is not None:\n                        iter_values = islice(iter_values, max_length)\n", "                    iter_values = islice(iter(obj), max_length)\n", None)
+
+# ---- round 7 ---------------------------------------------------------------------
+PN = "rich/panel.py"
+V("c08-title-justify-unpinned", "C08", PN, '            title_text.justify = "default"\n', "", "R8.18")
+V("c08-benign-title-render-width", "C08", PN, "            yield from console.render(title_text)\n", "            yield from console.render(title_text, options.update(width=width - 4))\n", None)
+V("c08-title-tabs-kept", "C08", PN, "            title_text.expand_tabs()\n", "", "R8.17")
+V("c01-title-tabs-kept", "C01", PN, "            title_text.expand_tabs()\n", "", "R1.11")
+V("c09-title-tabs-kept", "C09", PN, "            title_text.expand_tabs()\n", "", "R9.11")
+V("c08-title-newlines-kept", "C08", PN, '            title_text.plain = title_text.plain.replace("\\n", " ")\n', "", "R8.17")
+V("c08-align-shape-measured", "C08", "rich/align.py", "        width, height = Segment.get_shape(lines)\n", "        height = len(lines)\n", "R8.8")
+V("c05-plain-getter-rebinds", "C05", "rich/text.py", '            self._text[:] = ["".join(self._text)]\n        return self._text[0]', '            self._text = ["".join(self._text)]\n        return self._text[0]', "R5.10")
+V("c05-set-length-truncate", "C05", "rich/text.py", "                self.right_crop(length - new_length)\n", "                self.truncate(new_length)\n", "R5.8")
+V("c02-wrap-fits-in-chars", "C02", "rich/text.py", "            if no_wrap:\n                new_lines = Lines([line])\n", "            if no_wrap or len(line) <= width:\n                new_lines = Lines([line])\n", "R2.14")
+V("c02-benign-wrap-fits-in-cells", "C02", "rich/text.py", "            if no_wrap:\n                new_lines = Lines([line])\n", "            if no_wrap or not line:\n                new_lines = Lines([line])\n", None)
+V("c06-eq-null-shortcut", "C06", "rich/style.py", "            return NotImplemented\n        return (\n            self._color == other._color", "            return NotImplemented\n        if self._null or other._null:\n            return self._null and other._null\n        return (\n            self._color == other._color", "R6.1")
+V("c04-emoji-fallback-folded", "C04", "rich/_emoji_replace.py", "        return get_emoji(emoji_name.lower(), emoji_code)\n", '        emoji_name = emoji_name.lower()\n        return get_emoji(emoji_name, f":{emoji_name}:")\n', "R4.13")
+V("c04-benign-emoji-group0", "C04", "rich/_emoji_replace.py", "        return get_emoji(emoji_name.lower(), emoji_code)\n", "        return get_emoji(emoji_name.lower(), match.group(0))\n", None)
+V("c20-pop-guard-inverted", "C20", "rich/theme.py", "        if len(self._entries) == 1:\n            raise ThemeStackError", "        if len(self._entries) != 1:\n            raise ThemeStackError", "R20.4")
